@@ -131,8 +131,10 @@ def masks_for(D, tier):
     return ms + extra
 
 
-def coupling_harness(cname, mask, shape4d, mode, props, hidden=None, with_context=False):
-    """mode: forward | inverse | if (inverse o forward)"""
+def coupling_harness(cname, mask, shape4d, mode, props, hidden=None, with_context=False, uncond=False):
+    """mode: forward | inverse | if (inverse o forward); uncond: apply_unconditional_transform=True (the identity features go through the class's
+    own Piecewise...CDF transform, whose spline function is seen through the same spline contract)"""
+    mkw = {"apply_unconditional_transform": True} if uncond else {}
     make, cls = CLASSES[cname]
     D = len(mask)
     shape = (2, D) if not shape4d else (2, D, 1, 2)
@@ -144,8 +146,9 @@ def coupling_harness(cname, mask, shape4d, mode, props, hidden=None, with_contex
 
         def create(i, o):
             n = StubNet(i, o, hidden=hidden); nets.append(n); return n
-        m = make(torch.tensor(mask) if all(isinstance(v, int) for v in mask) else torch.tensor(mask, dtype=torch.float32), create)
+        m = make(torch.tensor(mask) if all(isinstance(v, int) for v in mask) else torch.tensor(mask, dtype=torch.float32), create, **mkw)
         m.eval()
+        ctx.notes["random_draws"] = []        # draws of the constructor (parameter initialisation) are not draws of the evaluation
         h.nets = nets
         x = h.inp("x", shape)
         c = h.inp("context", (2, 2)) if with_context else None
@@ -172,13 +175,20 @@ def coupling_harness(cname, mask, shape4d, mode, props, hidden=None, with_contex
             ensure(h, ctx, "C07.shapes", z3.BoolVal(tuple(po.shape) == tuple(px.shape) and tuple(pl.shape) == (B,)))
             if "C07" in props:
                 # identity features: bit-for-bit the input (the very same symbol)
-                ok = all(z3.eq(po[(b, i) + sp], px[(b, i) + sp]) for b in range(B) for i in ident for sp in np.ndindex(*px.shape[2:]))
-                ensure(h, ctx, "C07.identity-untouched", z3.BoolVal(bool(ok)))
+                if not uncond:
+                    ok = all(z3.eq(po[(b, i) + sp], px[(b, i) + sp]) for b in range(B) for i in ident for sp in np.ndindex(*px.shape[2:]))
+                    ensure(h, ctx, "C07.identity-untouched", z3.BoolVal(bool(ok)))
+                else:
+                    # identity features go through the unconditional transform: a function of the own input alone
+                    ok = all(set(s_ for s_ in base_symbols(po[(b, i) + sp]) if s_ in xid) <= {px[(b, i) + sp].get_id()}
+                             for b in range(B) for i in ident for sp in np.ndindex(*px.shape[2:]))
+                    ensure(h, ctx, "C07.identity-features-unconditional", z3.BoolVal(bool(ok)))
                 # the conditioner was shown exactly the identity split (and the context)
                 shown_ok = len(h.nets) == 1 and len(h.nets[0].shown) == 1
                 if shown_ok:
                     si, sc = h.nets[0].shown[0]
-                    want = px[:, ident, ...]
+                    # the conditioner sees the identity features on the data side of the unconditional transform: the inputs of forward, the outputs of inverse
+                    want = (po if (uncond and mode == "inverse") else px)[:, ident, ...]
                     shown_ok = tuple(P(si).shape) == tuple(want.shape) and all(z3.eq(a, b_) for a, b_ in zip(P(si).reshape(-1), want.reshape(-1)))
                     if with_context:
                         shown_ok = shown_ok and sc is h.inputs["context"]
@@ -210,12 +220,13 @@ def coupling_harness(cname, mask, shape4d, mode, props, hidden=None, with_contex
             if "C01" in props and mode == "forward":
                 for b in range(B):
                     prod = rv(1)
-                    for i in trans:
+                    for i in (sorted(trans + ident) if uncond else trans):
                         for sp in np.ndindex(*px.shape[2:]):
                             prod = T.mul(prod, diff(po[(b, i) + sp], px[(b, i) + sp]))
                     numr, den = exp_of_term(pl[b])
                     ensure(h, ctx, "C01.logdet", z3.And(zabs(prod) * den == numr, prod != 0))
-                layout_clauses(h, ctx, h.stubs, px, trans)
+                if not uncond:
+                    layout_clauses(h, ctx, h.stubs, px, trans)
         else:
             y, ldf, x2, ldi = value
             for a, b_ in zip(P(x2).reshape(-1), px.reshape(-1)):
@@ -247,7 +258,7 @@ def coupling_harness(cname, mask, shape4d, mode, props, hidden=None, with_contex
             if shape4d:
                 return nets.ConvResidualNet(i, o, hidden_channels=4, num_blocks=1, context_channels=None)
             return nets.ResidualNet(i, o, hidden_features=5, num_blocks=1, context_features=2 if with_context else None)
-        m = make(torch.tensor(mask) if all(isinstance(v, int) for v in mask) else torch.tensor(mask, dtype=torch.float32), create)
+        m = make(torch.tensor(mask) if all(isinstance(v, int) for v in mask) else torch.tensor(mask, dtype=torch.float32), create, **mkw)
         m = native_cast(m)
         with torch.no_grad():
             g = torch.Generator().manual_seed(int(abs(float(np.asarray(inp["x"]).sum())) * 1000) % 100000)
@@ -272,7 +283,8 @@ def coupling_harness(cname, mask, shape4d, mode, props, hidden=None, with_contex
         if mode in ("forward", "inverse"):
             o, ld = res
             f = m.forward if mode == "forward" else m.inverse
-            out["C07.identity-untouched"] = bool(torch.equal(o[:, ident], x[:, ident]))
+            if not uncond:
+                out["C07.identity-untouched"] = bool(torch.equal(o[:, ident], x[:, ident]))
             x2 = x.clone(); x2[:, trans] += 0.37
             o2, _ = f(x2, c)
             J = torch.autograd.functional.jacobian(lambda z: f(z, c)[0], x)
@@ -313,7 +325,7 @@ def coupling_harness(cname, mask, shape4d, mode, props, hidden=None, with_contex
             d["context"] = rng.normal(size=(2, 2))
         return d
 
-    hid = f"coupling_{cname}[mask={','.join(str(v) for v in mask)},{'4d' if shape4d else '2d'},{mode}{',hidden' if hidden else ''}{',ctx' if with_context else ''}]"
+    hid = f"coupling_{cname}[mask={','.join(str(v) for v in mask)},{'4d' if shape4d else '2d'},{mode}{',hidden' if hidden else ''}{',ctx' if with_context else ''}{',uncond' if uncond else ''}]"
     return Harness(hid, run, post, native_call=native_call, native_clauses=native_clauses, sample=sample,
                    functions=[CP.CouplingTransform.forward, CP.CouplingTransform.inverse, CP.CouplingTransform.__init__, cls._coupling_transform_forward if hasattr(cls, "_coupling_transform_forward") else cls.forward],
                    config={"class": cname, "mask": [float(v) for v in mask], "4d": shape4d, "mode": mode})
@@ -338,4 +350,7 @@ def coupling_harnesses(props, tier, modes=("forward", "inverse")):
         hs.append(coupling_harness("Affine", [1, 0, 1], False, mode, props, with_context=True))
         hs.append(coupling_harness("PwRQTails", [0, 1], False, mode, props, hidden=4))
         hs.append(coupling_harness("PwQuadratic", [0, 1], True, mode, props, hidden=4))
+        for cname in ("PwRQTails", "PwLinear") if tier == "quick" else ("PwRQTails", "PwRQ", "PwLinear", "PwQuadratic", "PwCubic"):
+            hs.append(coupling_harness(cname, [1, 0], False, mode, props, uncond=True))
+            hs.append(coupling_harness(cname, [0, 1, 0], False, mode, props, uncond=True))
     return hs
